@@ -504,6 +504,21 @@ def check_documented_defaults(chk, ix):
     n = 0
     for dest, rows in sorted(by_dest.items()):
         documented = [r for r in rows if isinstance(r[1].get("help"), str) and "default behaviour" in " ".join(r[1]["help"].split()).lower()]
+        if len(rows) >= 2 and not documented and len({r[1]["action"] for r in rows}) == 2:
+            # a two-sided switch whose help names no default: its built-in default has to be stated in Configuration.defaults -
+            # otherwise it is an accident of the table order (argparse takes the FIRST option's implicit default)
+            n += 1
+            chk.instance("Z8")
+            if dest in defaults:
+                chk.ok("Z8", {"dest": dest, "documented default": None, "stated default": defaults[dest], "from": "Configuration.defaults"}, nontrivial_key=dest)
+            else:
+                first = rows[0][1]
+                eff = first["default"] if "default" in first else (first["action"] == "store_false")
+                chk.fail(Finding("Z8", "behave.configuration:OPTIONS", "%s: no stated default, effective %r" % (dest, eff),
+                                 "the switch pair %s has no stated built-in default (neither in Configuration.defaults nor in a help text): an option that is "
+                                 "mentioned nowhere gets %s=%r only because %s happens to be registered first" % (
+                                     " / ".join("/".join(r[0]) for r in rows), dest, eff, "/".join(rows[0][0])), file=mod.relpath, line=1))
+            continue
         if len(rows) < 2 or not documented:
             continue
         n += 1
@@ -522,8 +537,8 @@ def check_documented_defaults(chk, ix):
             chk.fail(Finding("Z8", "behave.configuration:OPTIONS", "%s: documented %s, effective %r" % (dest, "/".join(fixed), eff),
                              "the help of %s says it is the default behaviour (%s=%s), but the effective default of %s is %r, taken from %s" % (
                                  "/".join(fixed), dest, doc_value, dest, eff, src), file=mod.relpath, line=1))
-    if n < 6:
-        raise AnalysisError("anchor drift: only %d switch pairs with a documented default found (8 confirmed)" % n)
+    if n < 8:
+        raise AnalysisError("anchor drift: only %d switch pairs found (10 confirmed)" % n)
 
 
 WHAT["Z10"] = "the command-line defines are merged into the userdata before anything that reads the userdata is set up (reporters, formatters)"
@@ -601,3 +616,39 @@ def check_parser_is_fresh(chk, ix):
               "installed for the next Configuration of the same process" % (
                   "declares module-level state (%s)" % ", ".join(unparse(g) for g in globals_) if globals_ else
                   "can return before constructing a parser" if early else "does not construct its parser unconditionally"))
+
+
+
+WHAT["Z12"] = "every logging level name the option advertises is accepted and converted to logging's number (NOTSET = 0 included); an unknown name is a usage error"
+
+
+def check_loglevel_names(chk, ix):
+    """Z12: LogLevel.parse_type constant-folded on the names of LogLevel.names (any case) and on an unknown name."""
+    chk.rule("Z12", WHAT["Z12"])
+    import logging as _logging
+    lc_ = ix.cls("behave.configuration:LogLevel")
+    f = lc_.lookup("parse_type")
+    ln = lc_.lookup_const("names")
+    if f is None or ln is None:
+        raise AnalysisError("anchor missing: LogLevel.parse_type / LogLevel.names")
+    names = ix.fold(ln[1], ln[0].module)
+    cases = [(n_, getattr(_logging, n_)) for n_ in names] + [(names[1].lower(), getattr(_logging, names[1])), ("notset", 0), ("BOGUS", "error")]
+    for name, want in cases:
+        it = Interp(ix, name="LogLevel.parse_type")
+        it.int_sat = 1000
+        st = State()
+        st.frames = []
+        outs = it.call_function(st, f, [name], {}, None, self_val=ClassVal(lc_))
+        chk.absorb(it)
+        chk.instance("Z12")
+        if len(outs) != 1:
+            raise AnalysisError("LogLevel.parse_type(%r) not foldable: %r" % (name, [(k, v) for _, k, v in outs][:3]))
+        _, k, v = outs[0]
+        got = "error" if k == "raise" else v
+        if got == want and (want == "error" or isinstance(got, int)):
+            chk.ok("Z12", {"level name": name, "parse_type": got}, nontrivial_key=name)
+        else:
+            chk.fail(Finding("Z12", f.fullname, "%s -> %r" % (name, got if k != "raise" else v.clsname()),
+                             "LogLevel.parse_type(%r) %s; expected %s: --logging-level=%s (or logging_level = %s in a configuration file) is %s"
+                             % (name, "raises %s" % v.clsname() if k == "raise" else "returns %r" % (v,), "a usage error" if want == "error" else want, name, name,
+                                "rejected" if k == "raise" else "accepted"), file=f.file, line=f.lineno, stmt="def parse_type"))
